@@ -217,7 +217,7 @@ _NATIVE_TYPES = (int, float, str, list, tuple, dict, set, frozenset, deque, rang
 
 
 class Interp:
-    def __init__(s, repo, max_steps=600000):
+    def __init__(s, repo, max_steps=6000000):
         s.repo = repo
         s.steps = 0
         s.max_steps = max_steps
